@@ -307,6 +307,60 @@ func (vc *VC) specialCall(key string, c *ssa.CallCommon, args []TV, v ssa.Value,
 			vc.heapWrite(st, "#held", B, args[0].S, "false")
 		}
 	}
+	// sync.Once (only where the contract asks for it with "flag model-once"): Do(f) runs f unless the Once
+	// has fired already, and has fired afterwards. f must be a closure made in this function whose
+	// contract is applied under the condition that the Once had not fired; otherwise the call is left to
+	// the default treatment
+	if key == "(*sync.Once).Do" && vc.fc != nil && vc.fc.Flags["model-once"] && len(args) == 2 && len(c.Args) == 2 && vc.cur != nil {
+		mc, ok := c.Args[1].(*ssa.MakeClosure)
+		if !ok {
+			return nil
+		}
+		fn2, _ := mc.Fn.(*ssa.Function)
+		if fn2 == nil {
+			return nil
+		}
+		k2, _, _ := vc.calleeKey(&ssa.CallCommon{Value: mc})
+		fc2 := vc.lookupContract(k2)
+		if fc2 == nil {
+			fc2 = vc.lookupContract(fn2.String())
+		}
+		if fc2 == nil {
+			return nil
+		}
+		B := types.Typ[types.Bool]
+		vc.heapKeySort("#once", B)
+		done := vc.define("oncefired", "Bool", vc.heapRead(st, "#once", B, args[0].S))
+		st0 := st.clone()
+		oldGuard := vc.reach[vc.cur.Index]
+		vc.reach[vc.cur.Index] = and(oldGuard, not(done))
+		vc.applyContract(fc2, fn2, &ssa.CallCommon{Value: mc}, nil, nil, st, pos)
+		vc.reach[vc.cur.Index] = oldGuard
+		keys := map[string]bool{}
+		for k := range st.heap {
+			keys[k] = true
+		}
+		for k := range st0.heap {
+			keys[k] = true
+		}
+		if st.epoch != st0.epoch {
+			for k := range vc.heapSort {
+				keys[k] = true
+			}
+		}
+		for _, k := range sortedKeys(keys) {
+			elem := vc.heapElem[k]
+			a, b := vc.heapGet(st0, k, elem), vc.heapGet(st, k, elem)
+			if a != b {
+				st.heap[k] = vc.define("H_"+mangle(k), vc.heapSort[k], ite(done, a, b))
+			}
+		}
+		if st.nextId != st0.nextId {
+			st.nextId = vc.define("nextId", "Int", ite(done, st0.nextId, st.nextId))
+		}
+		vc.heapWrite(st, "#once", B, args[0].S, "true")
+		return &TV{}
+	}
 	return nil
 }
 
